@@ -159,6 +159,9 @@ pub struct State {
     pub(crate) about_to_stop: bool,
     // the program that was running stopped with an error and has not been resumed or replaced
     run_failed: bool,
+    // highest data stack length since the counter was last taken (verification instrumentation)
+    #[cfg(feature = "verif_hooks")]
+    pub(crate) verif_stack_peak: usize,
     pub(crate) bitstr_mod: BitstrState,
     // d2 canvas
     pub(crate) d2: CellRef,
@@ -1430,6 +1433,10 @@ impl State {
             self.add_reverse_step(ReverseStep::PopData);
         }
         self.data_stack.push(data);
+        #[cfg(feature = "verif_hooks")]
+        {
+            self.verif_stack_peak = self.verif_stack_peak.max(self.data_stack.len());
+        }
         OK
     }
 
